@@ -17,6 +17,10 @@ func (ex *Exec) doCall(st *State, fr *Frame, c *ssa.CallCommon, dst ssa.Value, p
 	}
 	fnv := ex.val(st, fr, c.Value)
 	ex.curCallArgs = args
+	ex.curCallRecv = nil
+	if c.IsInvoke() {
+		ex.curCallRecv = fnv
+	}
 	gsAfter := ex.ghostSets(st, fr, c, "before")
 	pushed := ex.callValue(st, fr, c, fnv, args, dst, pos, false, work)
 	if len(gsAfter) > 0 {
@@ -79,6 +83,9 @@ func (ex *Exec) runGhostSetsRes(st *State, fr *Frame, sets []*GhostSet, sig *typ
 		}
 		for i, a := range ex.curCallArgs {
 			env.vars[fmt.Sprintf("arg%d", i)] = TV{a, nil}
+		}
+		if ex.curCallRecv != nil {
+			env.vars["recv"] = TV{ex.curCallRecv, nil}
 		}
 		var vals []TV
 		for _, e := range gs.Exprs {
